@@ -835,14 +835,69 @@ def check_C24(res):
     return "random octets (20%), token soups from zone-file vocabulary incl. NULL/OPT/TSIG and TYPE10/41/250 (40%), record skeletons with RFC 3597 generic RDATA of known types and random/near-valid hex and lengths (10%), oversized fields up to 70000 octets (10%), mutations of rendered valid files: truncate/insert/delete/overwrite/swap (20%); a parse slower than 20 s counts as non-termination; every yielded record is checked with Rdata!Valid in TLC; a case is non-trivial when the parser yields at least one item"
 
 
+def exported_trees(res, name, module, cfg, stride, pick, workers=4):
+    """(G) for models whose behaviours are their initial states: TLC checks the configuration and prints every
+    stride-th state (<<"TREE", f0, f1, f2, md>> from the Export invariant); returns an ND-JSON file of trees."""
+    modp = os.path.join(SPEC, "mc", module)
+    text = open(os.path.join(SPEC, "mc", cfg)).read()
+    text = re.sub(r"Stride = \d+", f"Stride = {stride}", text)
+    text = re.sub(r"Pick = \d+", f"Pick = {pick % stride}", text)
+    cfgp = os.path.join(OUT, "tmp", f"{res.pid}-{os.getpid()}-{cfg}")
+    os.makedirs(os.path.dirname(cfgp), exist_ok=True)
+    with open(cfgp, "w") as f:
+        f.write(text)
+    t = time.time()
+    r = run_tlc(modp, cfgp, workers=workers, timeout=3600, xmx="6g")
+    os.remove(cfgp)
+    if "Model checking completed. No error has been found" not in r["out"]:
+        raise ToolError(f"{name}: TLC did not complete cleanly while exporting trees:\n{r['out'][-3000:]}")
+    path = os.path.join(OUT, "tmp", f"{res.pid}-{os.getpid()}.trees")
+    n = 0
+    out = r["out"]
+    with open(path, "w") as g:
+        tree_re = re.compile(r'<<\s*"TREE"')
+        m = tree_re.search(out)
+        while m:
+            i = m.start()
+            # the printed value may span several lines; it ends at the matching >>
+            depth, j = 0, i
+            while j < len(out):
+                if out.startswith("<<", j):
+                    depth += 1
+                    j += 2
+                elif out.startswith(">>", j):
+                    depth -= 1
+                    j += 2
+                    if depth == 0:
+                        break
+                else:
+                    j += 1
+            v = parse_tla(out[i:j])
+            g.write(json.dumps({"files": [v[1], v[2], v[3]], "md": v[4]}) + "\n")
+            n += 1
+            m = tree_re.search(out, j)
+    if n == 0:
+        raise ToolError(f"{name}: no tree was exported")
+    res.add_mc(name, r)
+    res.notes[name] = dict(initial_states=r["distinct"], exported=n, stride=stride, pick=pick % stride)
+    log(f"[trees] {name}: {r['distinct']} trees checked, {n} exported ({time.time() - t:.1f}s)")
+    return path, n
+
+
 def check_C25(res):
     q = res.tier == "quick"
-    run_mc(res, "MC_ZoneFile (include stack = textual inclusion)", "MC_ZoneFile.tla", "MC_ZoneFile_quick.cfg" if q else "MC_ZoneFile.cfg", workers=4 if q else 8)
+    if not q:
+        run_mc(res, "MC_ZoneFile (include stack = textual inclusion)", "MC_ZoneFile.tla", "MC_ZoneFile.cfg", workers=8)
     run_mc(res, "MC_ZoneFile/mutant (includer's origin not restored)", "MC_ZoneFile.tla", "MC_ZoneFile_mutant.cfg", workers=2, expect_violation="Equiv")
     scratch = os.path.join(OUT, "zf")
     os.makedirs(scratch, exist_ok=True)
+    # (M)+(G): the quick configuration is checked and every k-th of its trees is rendered as real files for the real parser
+    trees, nt = exported_trees(res, "MC_ZoneFileG (include stack = textual inclusion; trees exported)", "MC_ZoneFileG.tla", "MC_ZoneFileG.cfg",
+                               250 if q else 40, res.seed, workers=4 if q else 8)
+    trace_stage(res, ["zonefile", "replay", trees], "TraceZoneFile", "zonefile/model-trees", ["C25"], driver_tail=[scratch])
+    os.remove(trees)
     trace_stage(res, ["zonefile", "fs", res.seed, 300 if q else 10000], "TraceZoneFile", "zonefile/fs", ["C25"], driver_tail=[scratch])
-    return "(M) all trees of three files over a 7-item alphabet + includes with/without origin, depth limits 0-2: the stack of per-file parsers (new_for_include, update_context_from_include) yields exactly what textual inclusion with origin save/restore yields; (V) random trees of 1-6 files in nested directories (top, top/sub, top/sub/deeper, x, x/y) with relative include paths that climb out of the includer's directory, include origins, context-dependent records after includes, depth limits 0-4, missing files (10%), decoy files where a path resolved against the wrong directory would land; fs::Parser output (file, line, record) against ZoneFile!ParseTree"
+    return "(G) every 250th (thorough: 40th) tree of the model-checked configuration is written out as real files in three directories and parsed by the real fs::Parser, its yield judged by ZoneFile!ParseTree; (M) all trees of three files over a 7-item alphabet + includes with/without origin, depth limits 0-2: the stack of per-file parsers (new_for_include, update_context_from_include) yields exactly what textual inclusion with origin save/restore yields; (V) random trees of 1-6 files in nested directories (top, top/sub, top/sub/deeper, x, x/y) with relative include paths that climb out of the includer's directory, include origins, context-dependent records after includes, depth limits 0-4, missing files (10%), decoy files where a path resolved against the wrong directory would land; fs::Parser output (file, line, record) against ZoneFile!ParseTree"
 
 
 def check_C26(res):
